@@ -3,6 +3,7 @@ mod codecs;
 mod falsify;
 mod gen;
 mod json;
+mod mirror;
 mod model;
 mod sim;
 mod state;
@@ -165,7 +166,7 @@ fn main() {
             let prop = args.get(2).cloned().unwrap_or_default();
             let seed: u64 = arg(&args, "--seed", "1").parse().unwrap();
             let budget: u64 = arg(&args, "--budget", "100").parse().unwrap();
-            match falsify::run(&prop, seed, budget).or_else(|| cluster::run(&prop, seed, budget)).or_else(|| if prop == "C20" { Some(codecs::c20(seed, budget)) } else { None }) {
+            match falsify::run(&prop, seed, budget).or_else(|| cluster::run(&prop, seed, budget)).or_else(|| if prop == "C20" { Some(codecs::c20(seed, budget)) } else if prop == "C08" { Some(mirror::c08(seed, budget)) } else { None }) {
                 Some(mut o) if prop == "C07" => {
                     codecs::c07_serde(seed, 1 + budget / 25, &mut o);
                     println!("{}", o.to_json().to_string())
